@@ -20,9 +20,12 @@ package main
 //   (3) the store key written at a login is never the one named in the cookie the client presented.
 
 import (
+	crand "crypto/rand"
 	"encoding/base64"
 	"encoding/hex"
+	"errors"
 	"fmt"
+	"io"
 	"strconv"
 	"strings"
 	"time"
@@ -133,7 +136,7 @@ func (c *c02Cell) loginFixation(P, S *c02Inst, secret string) {
 		}}
 	var htLines []string
 	htUsers := map[string]string{}
-	for i := 0; i < 40; i++ {
+	for i := 0; i < 90; i++ {
 		u, pw := fmt.Sprintf("ht-%02d-%s", i, c02RandStr(c.rng, 6, c02Alnum)), c02RandStr(c.rng, 12, c02Alnum)
 		htUsers[u] = pw
 		htLines = append(htLines, u+":"+vfHtpasswdSHA(pw))
@@ -342,5 +345,168 @@ func (c *c02Cell) loginFixation(P, S *c02Inst, secret string) {
 			}
 		}
 	}
+	c.entropyFaults(form)
 	c.w.Up.Reset()
+}
+
+// ---------------------------------------------------------------------------------------------------------
+// Entropy faults: the ticket id (store key) and the ticket secret (AES-GCM key of the store entry) come from the system's
+// random source. When that source fails during a login, the login must fail cleanly (no cookie, no store entry) or still
+// yield a sound ticket: never a degenerate one (zero bytes = a publicly known key / a ticket shared by every login hit).
+// Strictly sequential, no request in flight: crypto/rand.Reader (a package variable) is replaced around single htpasswd
+// form sign-ins (served entirely on the calling goroutine; the OAuth callback would involve the fake IdP's goroutines,
+// which read the same variable) by a reader that fails selected reads, and restored right after each.
+
+type c02FaultyRand struct {
+	real  io.Reader
+	size  int // fail every read of exactly this many bytes (0 = off)
+	kth   int // fail the k-th read (0 = off)
+	short bool
+	n     int
+	fired int
+	sizes []int
+}
+
+func (f *c02FaultyRand) Read(p []byte) (int, error) {
+	f.n++
+	f.sizes = append(f.sizes, len(p))
+	if (f.size != 0 && len(p) == f.size) || (f.kth != 0 && f.n == f.kth) {
+		f.fired++
+		if f.short && len(p) > 1 {
+			k, _ := io.ReadFull(f.real, p[:len(p)/2])
+			return k, errors.New("c02: injected entropy failure (short read)")
+		}
+		return 0, errors.New("c02: injected entropy failure")
+	}
+	return f.real.Read(p)
+}
+
+func c02ZeroRun(b []byte, min int) bool {
+	n := 0
+	for _, x := range b {
+		if x == 0 {
+			if n++; n >= min {
+				return true
+			}
+		} else {
+			n = 0
+		}
+	}
+	return false
+}
+
+func (c *c02Cell) entropyFaults(m c02LoginMethod) {
+	run, g, in := c.run, c.g, m.In
+	_ = c.w.IdP.EventCount("authorize") // orders the provider's earlier use of the random source before the swap
+	real := crand.Reader
+	defer func() { crand.Reader = real }()
+	type plan struct {
+		size, kth int
+		short     bool
+	}
+	var plans []plan
+	for _, short := range []bool{false, true} {
+		plans = append(plans, plan{size: 16, short: short}, plan{size: 12, short: short})
+		for k := 1; k <= 4; k++ {
+			plans = append(plans, plan{kth: k, short: short})
+		}
+	}
+	plans = append(plans, plan{}) // control: no fault
+	type got struct {
+		user string
+		ck   []c02CK
+		what string
+	}
+	var issued []got
+	ids, secrets := map[string]string{}, map[string]string{}
+	for _, pl := range plans {
+		for rep := 0; rep < 2; rep++ {
+			what := "no fault"
+			switch {
+			case pl.size != 0:
+				what = fmt.Sprintf("fail every %d-byte read", pl.size)
+			case pl.kth != 0:
+				what = fmt.Sprintf("fail read #%d", pl.kth)
+			}
+			if pl.short {
+				what += " after half of the bytes"
+			}
+			user := m.User("e")
+			b := vfNewBrowser("")
+			before := map[string]bool{}
+			for _, k := range c.w.Redis().Keys() {
+				before[k] = true
+			}
+			f := &c02FaultyRand{real: real, size: pl.size, kth: pl.kth, short: pl.short}
+			crand.Reader = f
+			err := m.Login(b, user, time.Time{})
+			crand.Reader = real
+			ck := c.sessionCookieIn(b, in)
+			var newKeys []string
+			for _, k := range c.w.Redis().Keys() {
+				if !before[k] {
+					newKeys = append(newKeys, k)
+				}
+			}
+			run.Count("entropy_fault_logins", 1)
+			run.Count("entropy_faults_fired", int64(f.fired))
+			det := map[string]interface{}{"flags": in.P.Flags, "login": m.Name + " of " + user, "fault": what, "faults_fired": f.fired, "random_reads_bytes": f.sizes, "new_store_keys": newKeys, "cookie": c02Header(ck)}
+			fired := "fired"
+			if f.fired == 0 {
+				fired = "not-reached"
+			}
+			if err != nil || len(ck) == 0 {
+				run.Eval(fmt.Sprintf("%s|%s|entropy-fault|%s|%s|refused", g.Store, g.Form.Name, what, fired))
+				run.Count("entropy_fault_logins_refused", 1)
+				if f.fired == 0 {
+					run.T.Fatalf("C02 rig: %s of %s failed although no entropy fault fired: %v", m.Name, user, err)
+				}
+				if len(ck) != 0 || len(newKeys) != 0 {
+					run.Violation("c02:login-under-entropy-fault-not-clean", fmt.Sprintf("[%s/%s] %s under %q failed but left %d cookie(s) / %d store entr(ies)", g.Store, g.Form.Name, m.Name, what, len(ck), len(newKeys)), det)
+				}
+				continue
+			}
+			run.Eval(fmt.Sprintf("%s|%s|entropy-fault|%s|%s|completed", g.Store, g.Form.Name, what, fired))
+			run.Count("entropy_fault_logins_completed", 1)
+			t := c02TicketOf(ck[0].Value)
+			rawID := []byte(t.ID)
+			if k := strings.LastIndexByte(t.ID, '-'); k >= 0 {
+				if hb, herr := hex.DecodeString(t.ID[k+1:]); herr == nil {
+					rawID = hb
+				}
+			}
+			det["ticket_id"], det["ticket_secret_hex"] = t.ID, hex.EncodeToString([]byte(t.Secret))
+			switch {
+			case !t.OK:
+				run.T.Fatalf("C02 rig: cookie issued under %q carries no readable ticket", what)
+			case c02ZeroRun(rawID, 8) || c02ZeroRun([]byte(t.Secret), 8) || len(t.Secret) < 16:
+				run.Violation("c02:degenerate-ticket-under-entropy-fault", fmt.Sprintf("[%s/%s] %s under %q completed with a degenerate ticket: id %q, secret %x", g.Store, g.Form.Name, m.Name, what, t.ID, t.Secret), det)
+			case ids[t.ID] != "" || secrets[t.Secret] != "":
+				det["same_as"] = ids[t.ID] + secrets[t.Secret]
+				run.Violation("c02:degenerate-ticket-under-entropy-fault", fmt.Sprintf("[%s/%s] %s under %q completed with the ticket id / secret of another login (%s)", g.Store, g.Form.Name, m.Name, what, ids[t.ID]+secrets[t.Secret]), det)
+			}
+			ids[t.ID], secrets[t.Secret] = user+" ("+what+")", user+" ("+what+")"
+			for _, k := range newKeys {
+				if v, e := c.w.Redis().Get(k); e == nil {
+					c.observeStore(k, v)
+					for _, n := range []int{16, 24, 32} {
+						if pt, ok := c02OpenGCM(make([]byte, n), []byte(v)); ok {
+							det["plaintext_head"] = vfTrunc(fmt.Sprintf("%q", pt), 200)
+							run.Violation("c02:store-entry-decrypts-with-well-known-key", fmt.Sprintf("[%s/%s] the store entry %q written by a %s under %q decrypts with %d zero bytes as key", g.Store, g.Form.Name, k, m.Name, what, n), det)
+						}
+					}
+				}
+			}
+			issued = append(issued, got{user, ck, what})
+		}
+	}
+	// later: every cookie handed out during the phase decodes to its own user, or to nothing
+	for _, it := range issued {
+		out := c02Probe(c.w, in, it.ck, false)
+		run.Eval(fmt.Sprintf("%s|%s|entropy-fault|later-presentation", g.Store, g.Form.Name))
+		if out.Accepted && out.Id.User != it.user {
+			run.Violation("c02:issued-cookie-decodes-to-another-session", fmt.Sprintf("[%s/%s] the cookie issued to %s (%s under %q) later decodes to the session of %q", g.Store, g.Form.Name, it.user, m.Name, it.what, out.Id.User),
+				c.detail(in, it.ck, map[string]interface{}{"fault": it.what, "issued_to": it.user, "decodes_to": out.Id.short()}))
+		}
+	}
 }
